@@ -26,12 +26,12 @@ Definition fail_step (o : op) (fs : files) : files * res := (fs, RErr).
 Definition short_step (j : nat) (o : op) (fs : files) : files * res :=
   match o with
   | OWrite p off b =>
-      if Nat.ltb j (length b) then
-        match fs p with
-        | Some c => (upd fs p (Some (pwrite c off (firstn j b))), RWrote j)
-        | None => (fs, RErr)
-        end
-      else step o fs
+      (* a genuinely short write: at most all bytes but the last *)
+      let j' := Nat.min j (length b - 1) in
+      match fs p with
+      | Some c => (upd fs p (Some (pwrite c off (firstn j' b))), RWrote j')
+      | None => (fs, RErr)
+      end
   | OReadAll p => (fs, match fs p with Some c => RBytes (firstn j c) | None => RErr end)
   | ORead p off n => (fs, match fs p with Some c => RBytes (firstn j (firstn n (skipn off c))) | None => RErr end)
   | _ => fail_step o fs
